@@ -114,6 +114,16 @@ def run_ob(tr):
     st = ob_state(ob)
     if exc is not None and st != before:
         fail("python/orderbook/failed-call-changed-object/%s" % exc, "call %r raised %s but changed the book" % (calls[-1], exc), tr)
+    # looking must not change anything: the same calls on a second object WITHOUT any getter in
+    # between (a binding that fills a cache when read, or refreshes lazily) end in the same state
+    ob_c = core.OrderBook(0, tr["tick"]) if tr.get("trading", True) else core.OrderBook(0, tr["tick"], trading=False)
+    clock_c = [0]
+    for k, c in enumerate(calls):
+        ob_call(ob_c, clock_c, k, c)
+    st_c = ob_state(ob_c)
+    if st_c != st:
+        key = [k for k in st if st[k] != st_c[k]][0]
+        fail("python/orderbook/observation-changes-behaviour/%s" % key, "calls %r: with every getter read between the calls %s = %r, without any read in between %r" % (calls, key, st[key], st_c[key]), tr)
     for key, want in exp["state"].items():
         if st[key] != want:
             fail("python/orderbook/getter/%s" % key, "after %r: %s = %r, Rust core %r" % (calls[-1], key, st[key], want), tr)
@@ -210,14 +220,18 @@ def env_call(env, c):
         return None, type(e).__name__
 
 
-def replay_env(tr):
+def replay_env(tr, observe=True):
     env = core.StepEnv(tr["seed"], tr.get("start", 0), tr["tick"], tr["step_size"]) if tr.get("trading", True) else core.StepEnv(tr["seed"], tr.get("start", 0), tr["tick"], tr["step_size"], False)
     calls = tr["calls"]
     before = None
     ret = exc = None
     for k, c in enumerate(calls):
-        # every getter is called between any two calls (a binding that caches must survive that)
-        before = env_state(env)
+        # every getter is called between any two calls (a binding that caches must survive that);
+        # with observe=False nothing is read until the end
+        if observe:
+            before = env_state(env)
+            if observe == "arrays":
+                env.level_1_data_array(), env.level_2_data_array(), env.get_market_data()
         ret, exc = env_call(env, c)
     return env, ret, exc, before
 
@@ -246,6 +260,12 @@ def run_env_c18(tr):
     env2, _, _, _ = replay_env(tr)
     if env_state(env2) != st:
         fail("python/stepenv/not-deterministic-in-seed", "two replays of the same calls with seed %r differ" % tr["seed"], tr)
+    # ... and so does a replay during which nothing is read (looking must not change anything)
+    env3, _, _, _ = replay_env(tr, observe=False)
+    st3 = env_state(env3)
+    if st3 != st:
+        key = [k for k in st if st[k] != st3[k]][0]
+        fail("python/stepenv/observation-changes-behaviour/%s" % key, "calls %r: with every getter read between the calls %s = %r, without any read in between %r" % (calls, key, st[key], st3[key]), tr)
     # drain probe through two more steps
     if exp.get("drain") is None:
         return
@@ -331,8 +351,9 @@ def check_frames(dp, orders, trades, tr):
                 break
 
 
-def numpy_replay(tr):
-    """the same instructions through StepEnvNumpy (limit orders and cancellations only)"""
+def numpy_replay(tr, observe=False):
+    """the same instructions through StepEnvNumpy (limit orders and cancellations only);
+    observe: read the observation arrays and the market-data dictionary between all calls"""
     calls = tr["calls"]
     for c in calls:
         if c[0] == "modify" or c[0] in ("enable", "disable") or (c[0] == "place" and (c[4] is None or c[4] % tr["tick"] != 0)):
@@ -342,6 +363,8 @@ def numpy_replay(tr):
     use_instr = tr["id"] % 2 == 0
     while i < len(calls):
         c = calls[i]
+        if observe:
+            env.level_1_data(), env.level_2_data(), env.get_market_data()
         if c[0] == "step":
             env.step()
             i += 1
@@ -437,7 +460,13 @@ def bulk_numpy_scenario():
 def run_env_c19(tr, dp):
     if tr["exp"]["exc"] is not None:
         return
-    env, _, _, _ = replay_env(tr)
+    # (the arrays and the dictionary are also read between all calls here; a second environment on
+    # which nothing is read until the end must hand out the same arrays)
+    env, _, _, _ = replay_env(tr, observe="arrays")
+    envc, _, _, _ = replay_env(tr, observe=False)
+    for nm, a, b in (("level_1_data_array", env.level_1_data_array(), envc.level_1_data_array()), ("level_2_data_array", env.level_2_data_array(), envc.level_2_data_array())):
+        if tl(a) != tl(b):
+            fail("python/layout/StepEnv.%s/observation-changes-values" % nm, "calls %r: read between all calls the array ends as %r, never read before as %r" % (tr["calls"], tl(a), tl(b)), tr)
     exp = tr["exp"]["state"]
     named, hist = exp["named"], exp["history"]
     # the documented quantities follow from the order list alone; what the Rust core reports for
@@ -471,6 +500,11 @@ def run_env_c19(tr, dp):
         check_array("StepEnvNumpy.level_1_data", ne.level_1_data(), L1_DOC, named, tr)
         check_array("StepEnvNumpy.level_2_data", ne.level_2_data(), L2_DOC, named, tr)
         check_market_data("StepEnvNumpy.get_market_data", ne.get_market_data(), hist, tr)
+        # the same instructions with the arrays read between all calls
+        nw = numpy_replay(tr, observe=True)
+        check_array("StepEnvNumpy.level_1_data", nw.level_1_data(), L1_DOC, named, tr)
+        check_array("StepEnvNumpy.level_2_data", nw.level_2_data(), L2_DOC, named, tr)
+        check_market_data("StepEnvNumpy.get_market_data", nw.get_market_data(), hist, tr)
 
 
 def main():
